@@ -27,7 +27,7 @@ func runHuge(e *env, bin string, senv []string) {
 	}
 	defer c.Close()
 	c.Timeout = 10 * time.Second
-	values := []string{"4000000000", "7300000000", "7500000000", "9000000000", "9300000000", "10000000000", "500000000000", "9223372036", "9223372037", "9223372036854775807", "1e19", "1e30", "1.7976931348623157e308"}
+	values := []string{"4000000000", "7300000000", "7500000000", "9000000000", "9300000000", "10000000000", "500000000000", "9223372036", "9223372037", "9223372036854775807", "1e19", "1e30", "1.7976931348623157e308", "nan", "NaN", "inf", "+Inf"}
 	type probe struct {
 		what  string
 		check []string
